@@ -163,8 +163,11 @@ def main(tier: str, seed: int) -> int:
     # of every rank still holds the factors of ALL layers of the model
     # (clipping inactive: with several stages the clip factor is per stage,
     # which no listed property covers)
-    ptopos = [(2, 1, 1), (2, 2, 1), (2, 1, 2)] if tier == 'quick' else \
-        [(2, 1, 1), (2, 2, 1), (2, 1, 2), (2, 2, 2), (4, 1, 1)]
+    # (3 stages over 4 layers: the stages own different numbers of layers)
+    ptopos = [(2, 1, 1), (2, 2, 1), (2, 1, 2), (3, 1, 1)] \
+        if tier == 'quick' else \
+        [(2, 1, 1), (2, 2, 1), (2, 1, 2), (2, 2, 2), (4, 1, 1), (3, 1, 1),
+         (3, 2, 1), (3, 1, 2)]
     for P, D, M in ptopos:
         for hi, h in enumerate(hs[:3 if tier == 'quick' else 12]):
             cfgd = dict(W=P * D * M, k=1, prediv=False, method='eigen', F=1,
